@@ -1,6 +1,7 @@
 import Proofs.SqlLoader
 import Proofs.SqlBuildProj
 import Proofs.SqlBuildFail
+import Proofs.SqlBuildShape
 
 /-!
   C12 — Loading fails only in documented ways and never half-applies input.
@@ -141,6 +142,21 @@ theorem build_parsing_needs_insert (u : UC) (stmts : List Stmt) (h : build u stm
   rcases build_error_cause u stmts _ h with ⟨he, _⟩ | ⟨_, k, v, n, hm, _⟩
   · exact absurd he (by decide)
   · exact ⟨k, v, n, hm⟩
+
+/-- SOURCE TIE, phase order: the model's `build` is the generic interpretation (`runPhases`: run the phases in the given
+    order, the first exception ends the build) of the order in which `ModelLoader.populate` calls its `populate_<phase>`
+    methods in the source now (generated table Gen/BuildShape.lean) — classes, unique identifiers, associations,
+    instances, connections.  Reordering the calls in the source changes the table and breaks this theorem. -/
+theorem build_follows_source (u : UC) (stmts : List Stmt) :
+    build u stmts = runPhases u stmts Gen.BuildShape.populateOrder BState.empty := build_eq_runPhases u stmts
+
+/-- SOURCE TIE, shape of `build_metamodel`, `input` and `populate_associations`: a fresh metamodel is created, populated
+    and returned; `input` binds the result of parsing the WHOLE text to a name and only then extends `self.statements`
+    with it (the order `input_atomic` rests on); every association is defined and then formalized -/
+theorem loader_shape_tie :
+    Gen.BuildShape.buildMetamodel = ["m = xtuml.MetaModel(id_generator)", "self.populate(m)", "return m"] ∧
+    Gen.BuildShape.inputSteps = [("parse", "s"), ("extend", "s")] ∧
+    Gen.BuildShape.associationCalls = ["define_association", "formalize"] := ⟨rfl, rfl, rfl⟩
 
 /-- the model's matchers were written for exactly the regular expressions the source states now -/
 theorem regex_tie (r : Gen.SqlLex.Rule) : Gen.SqlLex.Rule.regex r = modelledRegex r := by
